@@ -270,6 +270,28 @@ def classify(repo):
     return facts
 
 
+def asm_read_max(repo):
+    """the argument of the implicit `self.tlsConnection.readAsync(<n>)` in AsyncStateMachine.inReadEvent;
+    0 when it cannot be read off the AST (makes the obligation false)"""
+    try:
+        with open(os.path.join(repo, "tlslite/integration/asyncstatemachine.py")) as f:
+            tree = ast.parse(f.read())
+        fn = _find(tree, "AsyncStateMachine", "inReadEvent")
+        found = []
+        for n in ast.walk(fn):
+            if (isinstance(n, ast.Call) and isinstance(n.func, ast.Attribute) and n.func.attr == "readAsync"):
+                if len(n.args) == 1 and not n.keywords and isinstance(n.args[0], ast.Constant) \
+                        and isinstance(n.args[0].value, int) and not isinstance(n.args[0].value, bool):
+                    found.append(n.args[0].value)
+                else:
+                    return 0
+        if len(found) == 1 and found[0] >= 0:
+            return found[0]
+    except Exception:
+        pass
+    return 0
+
+
 def generate(repo):
     facts = classify(repo)
     lines = ["/- GENERATED by translate/gen_wrappers.py from the blocking API functions of the repository;",
@@ -284,6 +306,9 @@ def generate(repo):
     lines.append("def shapes : List (String × String) := [")
     lines.append(",\n".join("  (%s, %s)" % (lean_str(n), lean_str(shape)) for (n, shape, ok) in facts))
     lines.append("]")
+    lines.append("")
+    lines.append("/-- `n` of the implicit `readAsync(n)` AsyncStateMachine.inReadEvent starts (0 = not recognised) -/")
+    lines.append("def asmReadMax : Nat := %d" % asm_read_max(repo))
     lines.append("")
     lines.append("end Tls.Gen.Wrappers")
     return {"TlsModel/Gen/Wrappers.lean": "\n".join(lines) + "\n"}
